@@ -681,6 +681,131 @@ def chk_kinds(src):
         out.append(mm.group(1))
     return tuple(out)
 
+
+# ------------------------------------------------------------------ typed client methods / blocking client
+def split_top(t, sep=","):
+    out, depth, cur = [], 0, ""
+    for c in t:
+        if c in "([{":
+            depth += 1
+        elif c in ")]}":
+            depth -= 1
+        if c == sep and depth == 0:
+            out.append(cur.strip()); cur = ""
+        else:
+            cur += c
+    if cur.strip():
+        out.append(cur.strip())
+    return out
+
+
+def fn_bodies(impl):
+    """[(name, params text, body)] of the `fn`s in an impl block"""
+    out = []
+    for m in re.finditer(r"(async\s+)?fn\s+(\w+)(<[^>]*>)?\s*\(", impl):
+        start = m.end() - 1
+        depth, j = 0, start
+        while j < len(impl):
+            if impl[j] == "(":
+                depth += 1
+            elif impl[j] == ")":
+                depth -= 1
+                if depth == 0:
+                    break
+            j += 1
+        params = impl[start + 1:j]
+        k = impl.index("{", j)
+        body = block_after(impl[k - 1:], r"\{") if False else None
+        depth, e = 0, k
+        while e < len(impl):
+            if impl[e] == "{":
+                depth += 1
+            elif impl[e] == "}":
+                depth -= 1
+                if depth == 0:
+                    break
+            e += 1
+        out.append((m.group(2), params, impl[k + 1:e]))
+    return out
+
+
+def typed_table(src):
+    for name, shape in (("expect_coils", r"if coils\.len\(\) < usize::from\(cnt\) \{ return Err\(unexpected_response\(.*\)\); \} coils\.truncate\(cnt\.into\(\)\); Ok\(coils\)"),
+                        ("expect_words", r"if words\.len\(\) != usize::from\(cnt\) \{ return Err\(unexpected_response\(.*\)\); \} Ok\(words\)"),
+                        ("expect_echo", r"if request != response \{ return Err\(unexpected_response\(.*\)\); \} Ok\(\(\)\)")):
+        body = " ".join(block_after(src, r"fn\s+%s\s*(<[^>]*>)?\s*\(" % name).split())
+        if not re.fullmatch(shape, body):
+            raise Skip("%s changed shape" % name)
+    ur = " ".join(block_after(src, r"fn\s+unexpected_response\s*\(").split())
+    if not re.fullmatch(r"io::Error::new\(io::ErrorKind::InvalidData, message\)\.into\(\)", ur):
+        raise Skip("unexpected_response changed shape")
+    rows = []
+    for impl_re in (r"impl\s+Reader\s+for\s+Context\s*\{", r"impl\s+Writer\s+for\s+Context\s*\{"):
+        impl = block_after(src, impl_re)
+        for name, params, body in fn_bodies(impl):
+            b = "".join(body.split())
+            lens = {}
+            mm = re.match(r"let(\w+)=(\w+)\.len\(\);", b)
+            if mm:
+                lens[mm.group(1)] = mm.group(2)
+                b = b[mm.end():]
+            mm = re.fullmatch(r"self\.client\.call\(Request::(\w+)\((.*?)\)\)\.await\.and_then\(\|result\|matchresult\{"
+                              r"Ok\(Response::(\w+)\((.*?)\)\)=>\{?(.*?)\.map\(Ok\)\}?,?"
+                              r"Ok\(_\)=>unreachable!\(.*?\),Err\(exception\)=>Ok\(Err\(exception\)\),\}\)", b)
+            if not mm:
+                raise Skip("typed method %s changed shape" % name)
+            reqv, reqargs, rspv, rspargs, post = mm.groups()
+            qa = [re.sub(r"^Cow::Borrowed\((\w+)\)$", r"\1", a) for a in split_top(reqargs.rstrip(", "))]
+            ra = split_top(rspargs)
+            pnames = [p.split(":")[0].strip() for p in split_top(params) if ":" in p and "self" not in p.split(":")[0]]
+            if qa != pnames:
+                raise Skip("typed method %s: the request is not built from the parameters in order" % name)
+            qi = {a: i for i, a in enumerate(qa)}
+            ri = {a: i for i, a in enumerate(ra)}
+            post = post.strip()
+            mc = re.fullmatch(r"expect_(coils|words)\((\w+),(\w+)\)", post)
+            if mc:
+                if ri.get(mc.group(2)) != 0 or mc.group(3) not in qi:
+                    raise Skip("typed method %s: %s" % (name, post))
+                rule = "%s %d" % ("PRCoils" if mc.group(1) == "coils" else "PRWords", qi[mc.group(3)])
+            else:
+                me = re.fullmatch(r"expect_echo\(\((.*?),?\),\((.*?),?\),?\)", post)
+                if not me:
+                    raise Skip("typed method %s: unrecognised post-processing %s" % (name, post[:60]))
+                left, right = split_top(me.group(1)), split_top(me.group(2))
+                if len(left) != len(right):
+                    raise Skip("typed method %s: echo tuples differ in length" % name)
+                pairs = []
+                for l, r in zip(left, right):
+                    r = re.sub(r"^usize::from\((\w+)\)$", r"\1", r)
+                    if r not in ri:
+                        raise Skip("typed method %s: %s is not a reply field" % (name, r))
+                    if l in qi:
+                        pairs.append("(EF %d, %d)" % (qi[l], ri[r]))
+                    elif l in lens and lens[l] in qi:
+                        pairs.append("(EFLen %d, %d)" % (qi[lens[l]], ri[r]))
+                    else:
+                        raise Skip("typed method %s: %s is not a request field" % (name, l))
+                rule = "PREcho [%s]%%nat" % "; ".join(pairs)
+            rows.append((reqv, rspv, rule))
+    return rows
+
+
+def sync_table(src):
+    rows = []
+    body = " ".join(block_after(src, r"fn\s+block_on_with_timeout\s*<").split())
+    for impl_re in (r"impl\s+Client\s+for\s+Context\s*\{", r"impl\s+Reader\s+for\s+Context\s*\{", r"impl\s+Writer\s+for\s+Context\s*\{"):
+        impl = block_after(src, impl_re)
+        for name, params, fb in fn_bodies(impl):
+            b = "".join(fb.split())
+            mm = re.fullmatch(r"block_on_with_timeout\(&self\.runtime,self\.timeout,self\.async_ctx\.(\w+)\((.*?)\),?\)", b)
+            if not mm:
+                raise Skip("blocking method %s changed shape" % name)
+            pnames = [p.split(":")[0].strip() for p in split_top(params) if ":" in p and "self" not in p.split(":")[0]]
+            args = [a for a in mm.group(2).split(",") if a]
+            rows.append((name, mm.group(1), args == pnames))
+    return rows
+
 # ------------------------------------------------------------------ emit
 def s2l(name):
     return 's2l "%s"' % name
@@ -701,7 +826,7 @@ def emit_size(rows):
 def main():
     pieces, skipped, out = {}, {}, []
     out.append("(* GENERATED by tools/translate.py from the Rust source under %s -- regenerated on every run, do not edit *)" % REPO)
-    out.append("From Coq Require Import String.\nFrom TM Require Import Base Frame Pdu Crc RtuCodec TcpCodec Text Tables DecProg.\nLocal Open Scope string_scope.\n")
+    out.append("From Coq Require Import String.\nFrom TM Require Import Base Frame Pdu Crc RtuCodec TcpCodec Text Tables DecProg TypedTab.\nLocal Open Scope string_scope.\n")
 
     def piece(name, typ, fallback, thunk, emit):
         try:
@@ -779,6 +904,18 @@ def main():
     piece("gen_req_custom_below", "N", "128", lambda: dec("decode_request_pdu_bytes", "check_request_pdu_size", "req")[1] or (_ for _ in ()).throw(Skip("no Custom arm")), str)
     piece("gen_rsp_dec_prog", "dec_table", "rsp_dec_prog_model", lambda: dec("decode_response_pdu_bytes", "check_response_pdu_size", "response")[0], emit_dec)
     piece("gen_chk_kinds", "list N * list N", '(s2l "InvalidData", s2l "InvalidInput")', lambda: chk_kinds(codec), lambda t: "(%s, %s)" % (s2l(t[0]), s2l(t[1])))
+    try:
+        client = strip_comments(read("src/client/mod.rs"))
+    except Skip:
+        client = ""
+    try:
+        syncsrc = strip_comments(read("src/client/sync/mod.rs"))
+    except Skip:
+        syncsrc = ""
+    piece("gen_typed_table", "typed_table", "typed_table_model", lambda: typed_table(client),
+          lambda rows: "[" + "; ".join("(%s, (%s, %s))" % (s2l(a), s2l(b), r) for a, b, r in rows) + "]")
+    piece("gen_sync_table", "list sync_row", "map (fun n => (n, (n, true))) sync_methods", lambda: sync_table(syncsrc),
+          lambda rows: "[" + "; ".join("(%s, (%s, %s))" % (s2l(a), s2l(b), "true" if ok else "false") for a, b, ok in rows) + "]")
     piece("gen_LEN_MAX", "N * N", "(65535, 255)", lambda: len_helpers(codec), lambda t: "(%d, %d)" % t)
     os.makedirs(os.path.dirname(OUT), exist_ok=True)
     new = "\n".join(out) + "\n"
